@@ -3,7 +3,10 @@ import ParryModel.Shapes
 # C13 model: `src/mass_properties/*.rs`, `Triangle::{area, center, unit_angular_inertia}`, `utils::{inv, sort3, center}`
 
 Literal transliteration (same branch order, comparison strictness and floating-point operation order) of the
-2-D crate (`parry2d-f64`) mass-property code and of the 3-D closed forms, written against the lawless `Num`.
+2-D crate (`parry2d-f64`) mass-property code (triangle, convex polygon, trimesh, closed forms, `new/mass/principal_inertia`,
+`zero/is_zero`, `transform_by`, `+`, `-`, `Sum`, Compound) and of the 3-D crate's closed forms, `transform_by`,
+`reconstruct_inertia_matrix`, `construct_shifted_inertia_matrix` and the `(mass, com, matrix)` that `+`, `-`, `Sum` hand to
+`with_inertia_matrix` (whose `symmetric_eigen` is not modelled), written against the lawless `Num`.
 
 `π` is not a `Num` operation: every function that uses `Real::pi()` takes it as the explicit argument `pi`
 (the `Float` driver passes the binary64 constant `0x400921FB54442D18`, the theorems keep it universally quantified
@@ -322,6 +325,11 @@ def fromCapsule2Pinned (pi density : K) (a b : V2 K) (radius : K) : MP2 K :=
   let h := halfHeight * two
   let extra := (h * h * lit 1 4 + h * radius * lit 3 / lit 8) * ball.1 * density
   MP2.new com capMass (capI + extra)
+
+/-- `MassProperties::from_compound` (dim2): `shapes.iter().map(|s| s.1.mass_properties(density).transform_by(&s.0)).sum()`,
+given the parts' own mass properties -/
+def fromCompound2 (parts : List (Iso2 K × MP2 K)) : MP2 K :=
+  MP2.sum (parts.map fun s => s.2.transformBy s.1)
 
 /-! ## 3-D `MassProperties` (`parry3d-f64`) -/
 
